@@ -4,6 +4,7 @@ writes) against one verif.data.Data object driven through the same request histo
 the arrays handed out AT RETURN TIME and the SAME OBJECTS at the end of the history.
 Falsifier: every response against a freshly built Data, earlier arrays and input arrays unchanged,
 two runs identical."""
+import copy
 import itertools
 import os
 import math
@@ -218,6 +219,69 @@ def _explore(out, tier, seed, facts, replay):
                     out.violation("earlier-array-altered:derived", "the arrays returned for request #%d %r were altered by later requests %r"
                                   % (i, h[i], h[i + 1:]), {"dataset": ds, "history": h, "index": i})
                     break
+    # calendar coincidences: the first day of a year is also the first of its month: the slices "year 2012", "month 2012-01" and
+    # "day 2012-01-01" carry the same axis value but hold 4, 3 and 1 times; asked in any order on one object each answers as a fresh one
+    import verif.axis
+    t0_ = 1325376000
+    spec_c = {"times": [t0_, t0_ + 86400, t0_ + 14 * 86400, t0_ + 31 * 86400, t0_ + 366 * 86400], "leads": [0.0], "locs": [[1, 0.0, 0.0, 0.0]],
+              "fields": {"obs": [[[float(k_)]] for k_ in range(5)], "fcst": [[[float(k_) + 0.5]] for k_ in range(5)]}}
+    reqs_c = [("year", 0), ("month", 0), ("day", 0), ("week", 1), ("dayofmonth", 0), ("monthofyear", 0), ("dayofyear", 0)]
+    def ask_c(d_, ax_, i_):
+        return [[float(v_) for v_ in np.asarray(a_).flatten()] for a_ in d_.get_scores([datagen.field_obj("obs"), datagen.field_obj("fcst")], 0, verif.axis.get(ax_), i_)]
+    fresh_c = {}
+    for ax_, i_ in reqs_c:
+        try:
+            fresh_c[(ax_, i_)] = ask_c(verif.data.Data([datagen.mem_input(spec_c, "cal")]), ax_, i_)
+        except Exception as e:
+            fresh_c[(ax_, i_)] = "exception %s" % type(e).__name__
+    for perm_ in itertools.permutations(reqs_c[:4], 3):
+        d_c = verif.data.Data([datagen.mem_input(spec_c, "cal")])
+        for ax_, i_ in list(perm_) + reqs_c[4:]:
+            nf += 1
+            try:
+                got_c = ask_c(d_c, ax_, i_)
+            except Exception as e:
+                got_c = "exception %s" % type(e).__name__
+            if got_c != fresh_c[(ax_, i_)]:
+                out.violation("depends-on-history:time-like-axes", "times 2012-01-01, 01-02, 01-15, 02-01 and 2013-01-01: after the slices %r, slice %d of -x %s returns %r; a fresh dataset returns %r"
+                              % ([a_ for a_, _ in perm_], i_, ax_, got_c, fresh_c[(ax_, i_)]), {"dataset": spec_c, "history": [list(x_) for x_ in perm_] + [[ax_, i_]]})
+                break
+        else:
+            continue
+        break
+    # a climatology together with ensemble-derived fields: whole arrays of several fields, then the derived field alone
+    for _ in range(3 if tier == "quick" else 12):
+        dsx = datagen.gen_dataset(rng, options=False)
+        if "clim" not in dsx["cfg"]:
+            dsx["cfg"]["clim"] = copy.deepcopy(dsx["inputs"][0])
+            dsx["cfg"]["clim_divide"] = False
+        for inp_ in dsx["inputs"] + [dsx["cfg"]["clim"]]:
+            nt_, nl_, ns_ = len(inp_["times"]), len(inp_["leads"]), len(inp_["locs"])
+            for mname in ("ens0", "ens1"):
+                inp_["fields"][mname] = datagen.gen_cube(rng, nt_, nl_, ns_, rng.choice([0, 0.1]))
+            if "fcst" not in inp_["fields"]:
+                inp_["fields"]["fcst"] = datagen.gen_cube(rng, nt_, nl_, ns_, 0.1)
+        if isinstance(datagen.impl_data(dsx), tuple):
+            continue
+        k1 = 1 if len(dsx["inputs"]) > 1 else 0
+        dmx = [(["obs", "th1.0"], 0, ALL, 0), (["th1.0"], 0, ALL, 0), (["th1.0", "fcst"], k1, ALL, 0), (["th1.0"], k1, 3, 0), (["obs", "fcst"], 0, ALL, 0), (["qu0.5", "obs"], 0, ALL, 0), (["qu0.5"], 0, 3, 0)]
+        for h in itertools.permutations(dmx, 2):
+            h = list(h)
+            res = impl_history(dsx, h)
+            nf += 1
+            if isinstance(res, tuple):
+                continue
+            for i, (at_ret, at_end) in enumerate(res):
+                if isinstance(at_ret, tuple):
+                    continue
+                want = fresh(dsx, h[i])
+                if not datatie.compare_cols(at_ret, want) or not datatie.compare_cols(at_end, at_ret):
+                    out.violation("depends-on-history:derived-with-climatology", "with a climatology: request #%d %r after %r returns %s (at the end of the history %s); a freshly built dataset returns %s"
+                                  % (i, h[i], h[:i], str(at_ret)[:160], str(at_end)[:100], str(want)[:160]), {"dataset": dsx, "history": h, "index": i})
+                    break
+            else:
+                continue
+            break
     # inputs unmodified + two runs identical, on a sample
     for ds, m in dsets + sorted_sets:
         inputs = [datagen.mem_input(s, "in%d" % i) for i, s in enumerate(ds["inputs"])]
